@@ -297,4 +297,53 @@ theorem getIdsInv_getId (g : DDNGraph) (i : Nat) (s a : List Nat) (hs : Valid g.
   rw [getId_eq]
   simp
 
+/-! ## toIndexPartialAndSkip -/
+
+theorem skipLoop_spec (sp f : List Nat) (tm : Nat) : ∀ (ids : List Nat) (first mult skipM : Nat), ids.Nodup →
+    (tm ∈ ids → (skipLoop sp f tm ids first mult skipM).1 + (skipLoop sp f tm ids first mult skipM).2 * f.getD tm 0
+        = toIndexLoop (sel ids sp) (sel ids f) first mult) ∧
+    (tm ∉ ids → (skipLoop sp f tm ids first mult skipM).1 = toIndexLoop (sel ids sp) (sel ids f) first mult
+        ∧ (skipLoop sp f tm ids first mult skipM).2 = skipM)
+  | [], first, mult, skipM, _ => by simp [skipLoop, sel, toIndexLoop]
+  | id :: ids, first, mult, skipM, hnd => by
+    have hnd' := (List.nodup_cons.mp hnd).2
+    have hni := (List.nodup_cons.mp hnd).1
+    have hsel : toIndexLoop (sel (id :: ids) sp) (sel (id :: ids) f) first mult
+        = toIndexLoop (sel ids sp) (sel ids f) (first + mult * f.getD id 0) (mult * sp.getD id 0) := by
+      simp [sel, toIndexLoop]
+    rw [hsel]
+    simp only [skipLoop]
+    by_cases h : id = tm
+    · subst h
+      simp only [if_true]
+      obtain ⟨_, i2⟩ := skipLoop_spec sp f id ids first (mult * sp.getD id 0) mult hnd'
+      obtain ⟨e1, e2⟩ := i2 hni
+      constructor
+      · intro _
+        rw [e1, e2, toIndexLoop_eq, toIndexLoop_eq]; ring
+      · intro hc; exact absurd (List.mem_cons_self ..) hc
+    · simp only [h, if_false]
+      obtain ⟨i1, i2⟩ := skipLoop_spec sp f tm ids (first + mult * f.getD id 0) (mult * sp.getD id 0) skipM hnd'
+      constructor
+      · intro hm
+        rcases List.mem_cons.mp hm with rfl | hm
+        · exact absurd rfl h
+        · exact i1 hm
+      · intro hm
+        exact i2 (fun hc => hm (List.mem_cons_of_mem _ hc))
+
+/-- **toIndexPartialAndSkip**: for duplicate-free keys, `(first, skipMult)` decomposes the partial index:
+    `toIndexPartial(ids, space, f) = first + skipMult · f[toModify]` when `toModify ∈ ids` (and `first` is the whole
+    index, `skipMult = 1`, otherwise) -/
+theorem toIndexPartialAndSkip_spec (keys sp f : List Nat) (tm : Nat) (hnd : keys.Nodup) :
+    (tm ∈ keys → (toIndexPartialAndSkip keys sp f tm).1 + (toIndexPartialAndSkip keys sp f tm).2 * f.getD tm 0 = toIndexPartial keys sp f) ∧
+    (tm ∉ keys → toIndexPartialAndSkip keys sp f tm = (toIndexPartial keys sp f, 1)) := by
+  obtain ⟨h1, h2⟩ := skipLoop_spec sp f tm keys 0 1 1 hnd
+  unfold toIndexPartialAndSkip toIndexPartial
+  refine ⟨h1, fun hm => ?_⟩
+  obtain ⟨e1, e2⟩ := h2 hm
+  exact Prod.ext e1 e2
+
+example : toIndexPartialAndSkip [0, 2] [2, 3, 2] [1, 2, 1] 2 = (1, 2) ∧ toIndexPartial [0, 2] [2, 3, 2] [1, 2, 1] = 3 := by decide
+
 end AITB.Factored
